@@ -10,7 +10,7 @@ source, and an option grid (order incl. combinations and wildcards, groups, max 
       partition (every sequence in exactly one database, unchanged), entries preserved as a multiset,
       database = best source set (cases without wildcards), entries ordered by priority, summary totals add
       up, summary agrees with the split sizes, decode(dict, encoded) = original;
-Finding recognised by signature: C18-summary-exclusive-row (see docs/C18.md). The two former findings (wildcard expansion, summary last-GVF-wins) are fixed in /repo
+No finding signatures. The three former findings (incl. summary exclusive row, /repo 934a3a9) are regressions; the two former findings (wildcard expansion, summary last-GVF-wins) are fixed in /repo
 and kept as corpus regressions (see docs/C18.md).
 """
 import json, os, glob, copy, itertools
@@ -485,19 +485,33 @@ def build_cases(ctx):
                 recs.append([' '.join(e['text'] for e in ents), s])
             files.append(recs)
         cases.append(dict(kind='merge', stream='merge', files=files))
+    # encode: prefix AND suffix decoy strings of several shapes over headers ending in every character class
+    # (digit, letter - also letters of the decoy string -, '_', '|', '-'); every decoy string holds a character
+    # outside [0-9a-f-] so that a uuid4 can never carry it (the hypothesis of encode_roundtrip)
+    decoys = ['DECOY_', '_DECOY', 'rev_', '_rev', 'REV', '###', 'XXX_', '_X', 'DECOY', 'Y', '_', 'decoy|', '|D']
     for i in range(400 if ctx.quick else 5000):
         w = rng.choice(worlds)
         txs = H.world_txs(w)
-        decoy = rng.choice(['DECOY_', 'DECOY_', 'rev_', '_REV', 'XXX_'])
-        pos = rng.choice(['prefix', 'prefix', 'suffix'])
+        decoy = rng.choice(decoys)
+        pos = rng.choice(['prefix', 'suffix'])
         recs = []
-        hdrs = [' '.join(e['text'] for e in H.gen_header(rng, txs, orf_order='emitted')) for _ in range(rng.randint(1, 6))]
+        def end_variant(h):
+            r = rng.random()
+            if r < 0.4:
+                return h                                     # ends in the peptide index (digit)
+            base = h.rsplit('|', 1)[0]                       # no trailing index: ends in a nucleotide / digit
+            if r < 0.6:
+                return base
+            tail = rng.choice(list(decoy) + list('CDEOY_|-Xr') + [decoy[:-1], decoy[1:], decoy + decoy[-1]])
+            return base + rng.choice(['', '|']) + tail
+        hdrs = [end_variant(' '.join(e['text'] for e in H.gen_header(rng, txs, orf_order='emitted'))) for _ in range(rng.randint(1, 6))]
+        hdrs = [h for h in hdrs if h.strip() == h and h] or ['sp|P1|X']
         for _ in range(rng.randint(1, 10)):
             h = rng.choice(hdrs)
-            s = R.gen_protein(rng, 'trypsin', rng.randint(6, 20))
-            if rng.random() < 0.4:
+            s_ = R.gen_protein(rng, 'trypsin', rng.randint(6, 20))
+            if rng.random() < 0.45:
                 h = (decoy + h) if pos == 'prefix' else (h + decoy)
-            recs.append([h, s])
+            recs.append([h, s_])
         cases.append(dict(kind='encode', stream='encode', fasta=recs, decoy_string=decoy, decoy_string_position=pos))
     return cases
 
@@ -638,10 +652,10 @@ def evaluate(ctx, cases):
                 excl = bool(missing) and all(exclusive_row(c, n.split('-')) for n in missing)
                 short = sum(exp[n]['total'] for n in missing)
                 if tot != n_pep:
-                    add(c, 'C18-summary-exclusive-row' if (excl and tot + short == n_pep) else None,
+                    add(c, None,
                         'C18 summarize: n_total column adds up to %d, the pool has %d peptides (rows %s, expected keys %s)' % (
                         tot, n_pep, {k: v[0] for k, v in table.items() if v[0]}, {k: v['total'] for k, v in exp.items()}), {'table': sm})
-                if tot == n_pep or (excl and tot + short == n_pep):
+                if tot == n_pep:
                     for name, e in exp.items():
                         if excl and name in missing:
                             continue
@@ -664,7 +678,7 @@ def evaluate(ctx, cases):
                             for n in missing:
                                 nz2[n] = exp[n]['total']
                         if nz != sizes:
-                            add(c, 'C18-summary-exclusive-row' if (excl and nz2 == sizes) else None, 'C18: summary totals %s differ from the split database sizes %s' % (nz, sizes), {'table': sm})
+                            add(c, None, 'C18: summary totals %s differ from the split database sizes %s' % (nz, sizes), {'table': sm})
         elif c['kind'] == 'merge':
             a = {}
             for h, s in r['merged']:
